@@ -39,6 +39,7 @@ var ReadShapes = []Shape{
 	errnoShape(syscall.EIO),
 	errShape("bare", func(c *Conn, op string) error { return ErrBare }),
 	errShape("closed", func(c *Conn, op string) error { return c.ClosedErr(op) }),
+	errnoShape(syscall.ETIMEDOUT),
 	{Name: "data+EOF", Make: func(c *Conn, op string) Fault { return Fault{Kind: "data+err", Name: "read/data+EOF", Err: io.EOF} }},
 	{Name: "data+ECONNRESET", Make: func(c *Conn, op string) Fault {
 		return Fault{Kind: "data+err", Name: "read/data+ECONNRESET", Err: c.OpErr("read", syscall.ECONNRESET)}
@@ -55,6 +56,7 @@ var WriteShapes = []Shape{
 	errShape("timeout", func(c *Conn, op string) error { return c.TimeoutErr(op) }),
 	errnoShape(syscall.ENOBUFS),
 	errnoShape(syscall.EHOSTUNREACH),
+	errnoShape(syscall.ETIMEDOUT),
 	errShape("bare", func(c *Conn, op string) error { return ErrBare }),
 	errShape("closed", func(c *Conn, op string) error { return c.ClosedErr(op) }),
 	{Name: "short1", Make: func(c *Conn, op string) Fault { return Fault{Kind: "short", Name: "write/short1", N: 1} }},
